@@ -29,8 +29,15 @@ static void ensure_stack() {
 struct Thunk {
   std::function<void()> fn;
 };
+static void __attribute__((noinline)) call_deep(Thunk *t) { t->fn(); }
 static void *thunk_main(void *p) {
-  ((Thunk *)p)->fn();
+  // The thread's start-up and exit code (TLS destructors, libc per-thread cleanup) runs on this stack too and uses a
+  // few KiB at its top.  The library call is therefore started 32 KiB further down, so that nothing that runs after it
+  // returns can overwrite what it left behind before the stack is scanned.
+  char *pad = (char *)alloca(32768);
+  asm volatile("" : : "r"(pad) : "memory");
+  call_deep((Thunk *)p);
+  asm volatile("" : : "r"(pad) : "memory");
   return nullptr;
 }
 static void on_poisoned_stack(std::function<void()> fn) {
@@ -94,14 +101,37 @@ struct Needles {
     for (size_t off = 0; off < 4; off++) add8(swapped(p, off, 4), tag + "byte-swapped 32-bit words");
     for (size_t off = 0; off < 8; off++) add8(swapped(p, off, 8), tag + "byte-swapped 64-bit words");
   }
+  // A key longer than the 64-byte HMAC block is replaced by its digest: that digest and its inner/outer pads are then
+  // the form in which the algorithms (sha1crypt: SHA-1; PBKDF2 in scrypt/yescrypt: SHA-256) hold the passphrase.
+  // The digest is computed with the tree's own primitive - it only has to be the value the library itself handles.
+  void add_hashed_key(const Bytes &p, const std::string &tag) {
+    if (p.size() <= 64) return;
+    static const int ALG[] = {VFP_SHA1, VFP_SHA256};
+    for (int a : ALG) {
+      std::vector<unsigned char> cx(vfp_ctx_size(a));
+      unsigned char out[64];
+      vfp_init(a, cx.data());
+      vfp_update(a, cx.data(), p.data(), p.size());
+      vfp_final(a, cx.data(), out);
+      Bytes d((const char *)out, vfp_digest_len(a)), x36, x5c;
+      for (unsigned char c : d) {
+        x36.push_back((char)(c ^ 0x36));
+        x5c.push_back((char)(c ^ 0x5c));
+      }
+      std::string n = tag + (a == VFP_SHA1 ? "SHA-1" : "SHA-256") + "-hashed HMAC key ";
+      add8(d, n + "raw");
+      add8(x36, n + "ipad(^0x36)");
+      add8(x5c, n + "opad(^0x5c)");
+    }
+  }
   // returns a description of the first hit in [p, p+n)
-  std::string scan(const unsigned char *p, size_t n) const {
+  std::string scan(const unsigned char *p, size_t n, bool skip_swapped = false) const {
     for (size_t i = 0; i + 8 <= n; i++) {
       uint64_t v;
       memcpy(&v, p + i, 8);
       if (!filter[v & 0xffff]) continue;
       auto it = w8.find(v);
-      if (it != w8.end()) return it->second + " at offset " + std::to_string(i);
+      if (it != w8.end() && !(skip_swapped && it->second.find("byte-swapped") != std::string::npos)) return it->second + " at offset " + std::to_string(i);
       auto jt = w16.find(v);
       if (jt != w16.end() && i + 16 <= n) {
         uint64_t b;
@@ -113,13 +143,13 @@ struct Needles {
     return "";
   }
 };
-static std::string scan_stack(const Needles &nd) {
+static std::string scan_stack(const Needles &nd, bool skip_swapped = false) {
   // the used part: from the lowest byte that is no longer poison up to the top
   size_t lo = 0;
   while (lo < STACK_SIZE && g_stack[lo] == POISON) lo++;
   if (lo >= STACK_SIZE) return "";
   lo &= ~(size_t)15;
-  std::string r = nd.scan(g_stack + lo, STACK_SIZE - lo);
+  std::string r = nd.scan(g_stack + lo, STACK_SIZE - lo, skip_swapped);
   if (!r.empty()) r += " (stack depth " + std::to_string(STACK_SIZE - lo) + " bytes used)";
   return r;
 }
@@ -221,6 +251,7 @@ static Verdict c09_check(const KV &c, Ctx &ctx) {
     Needles nd;
     nd.add_secret(m1, "message ");
     nd.add_secret(key, "key ");
+    nd.add_hashed_key(key, "key ");
     std::string pn;
     Bytes img1, img2;
     auto run = [&](const Bytes &m, Bytes &img) {
@@ -235,6 +266,7 @@ static Verdict c09_check(const KV &c, Ctx &ctx) {
           vfp_update(prim, cx, m.data(), half);
           vfp_update(prim, cx, m.data() + half, m.size() - half);
           vfp_final(prim, cx, out);
+          if (prim == VFP_SHA256) vfp_buf(prim, m.data(), m.size(), out);  // one-shot form: its context lives on the stack
         });
         img.assign((char *)cx, cs);
         free(cx);
@@ -247,10 +279,10 @@ static Verdict c09_check(const KV &c, Ctx &ctx) {
         memset(cx, 0x77, cs);
         unsigned char out[32];
         on_poisoned_stack([&]() {
+          vfp_hmac256_buf(key.data(), key.size(), m.data(), m.size(), out);
           vfp_hmac256_init(cx, key.data(), key.size());
           vfp_hmac256_update(cx, m.data(), m.size());
           vfp_hmac256_final(cx, out);
-          vfp_hmac256_buf(key.data(), key.size(), m.data(), m.size(), out);
         });
         img.assign((char *)cx, cs);
         free(cx);
@@ -275,8 +307,10 @@ static Verdict c09_check(const KV &c, Ctx &ctx) {
     ctx.st.executed++;
     // The stack layer applies to the primitives that promise to erase their temporaries (the SHA-256 family:
     // tmp32, pad, khash, ihash, tmp8, U, T).  The other primitives only promise to erase their context.
-    if (prim == 3 || prim == 8 || prim == 10) {
-      std::string hs = scan_stack(nd);
+    // HMAC-SHA1 wipes its own temporaries (tk, k_ipad, k_opad) but runs on a SHA-1 whose transform does not wipe its
+    // message schedule: for it only the forms HMAC itself creates are looked for, not byte-swapped words.
+    if (prim == 3 || prim == 7 || prim == 8 || prim == 10) {
+      std::string hs = scan_stack(nd, prim == 7);
       if (!hs.empty()) return "C09 " + pn + " leaves a copy of its input (" + hs + ") on the stack [len=" + std::to_string(len) + " keylen=" + std::to_string(key.size()) + "]";
     }
     if (!img1.empty()) {
@@ -373,6 +407,7 @@ static Verdict c09_check(const KV &c, Ctx &ctx) {
       continue;
     }
     all.add_secret(P, "call " + k + " ");  // earlier phrases must not resurface later either
+    all.add_hashed_key(P, "call " + k + " ");
     std::string outcome;
     v = c09_call(entry, P, S, cd, &ra, &ras, all, ctx, outcome);
     if (v.empty()) {
